@@ -972,6 +972,14 @@ def c05_cases(tier, seed):
             keys += cmd() + rng.choice([["l"], ["l"], [], ["h"], ["l", "l"]])
         keys += rng.choice([["u"], ["u", "u"], ["u", "u", "u"], ["C-_"], ["u", "l", "u"]]) + ["Enter"]
         cases.append(Case(keys, mode="vi", initial=(t, ""), timeout=0, prompt="> "))
+    # vi: an insert session whose FIRST action, before any character is typed, is itself a grouped command (transpose, history
+    # move, completion, search): a group opened right inside a still-empty group; then Esc and undos
+    for i in range(max(10, n // 20)):
+        typed = rng.choice(["echo", "ab cd", "é日x"])
+        first = [["C-t"], ["Up"], ["Up", "Down"], ["Tab"], ["Tab", "Tab", "x"], ["C-r", "l", "C-g"], ["C-r", "l", "Right"], ["C-w"], ["C-y"]][i % 9]
+        keys = list(typed) + ["Esc", rng.choice(["A", "a", "i", "I"])] + first + rng.choice([[], ["z"]]) + ["Esc"] + ["u"] * rng.randint(1, 3) + ["Enter"]
+        cases.append(Case(keys, mode="vi", history=["ls -l", "old"], cands=["echo", "echoes", "é日xy"] if "Tab" in first else None,
+                          timeout=0, prompt="> "))
     # a sub-loop (search / completion) that showed SHORTER texts and was aborted or accepted, then more undos than it made changes
     for i in range(max(8, n // 20)):
         typed = rng.choice(["abcdef", "long text", "日本語 text", "on a b c d"])
@@ -1229,6 +1237,17 @@ def c17_cases(tier, seed):
         keys += [rng.choice([".", "u", "p", "x"]), "Enter", "Enter"]
         chunks = [key_bytes(kk) for kk in keys]
         cases.append(Case(keys, mode="vi", timeout=0, prompt="> ", reads=2, chunks=chunks, cols=80, meta={}))
+    # vi operators whose motion is a character search for a character of 2-4 bytes (typed text, then the operator)
+    for op in ("d", "y", "c"):
+        for cs in ("f", "t", "F", "T"):
+            t = rng.choice(["na\u00efve \u65e5\u672c x", "a\U0001F600b \u00e9\u00e9 c", "\u65e5a\u65e5b\u65e5"])
+            target = rng.choice([ch for ch in t if ord(ch) > 127])
+            keys = list(t) + ["Esc", rng.choice(["0", "$", "b"])] + ([rng.choice("23")] if rng.random() < 0.4 else []) + [op, cs, target]
+            if op == "c":
+                keys += ["q", "Esc"]
+            keys += [rng.choice([";", ",", "p", "u"]), "Enter", "Enter"]
+            chunks = [key_bytes(kk) for kk in keys]
+            cases.append(Case(keys, mode="vi", timeout=0, prompt="> ", reads=2, chunks=chunks, cols=80, meta={}))
     # vi operators with a LINE motion whose count reaches beyond the first / last line of a text of several lines
     for k in range(max(6, n // 30)):
         lines = [rand_text(rng, 1, 4, ["a", "b", " ", "é"]) for _ in range(rng.randint(2, 4))]
